@@ -275,6 +275,10 @@ class LiteralMarshaller(AbstractMarshaller[LiteralT], tp.Generic[LiteralT]):
             ValueError: If `val` is not a member of the bound `Literal` type.
         """
         if val in self.values:
+            # Membership is by equality: an `IntEnum` member or a `Decimal` may equal
+            #   a declared value - emit the declared (primitive) member, not the input.
+            if val.__class__ not in (str, int, float, bool, bytes, type(None)):
+                return self.values[self.values.index(val)]
             return val  # type: ignore[return-value]
 
         raise ValueError(f"{val!r} is not one of {self.values!r}")
